@@ -73,10 +73,16 @@ func init() {
 			if i == 1 {
 				cfg.MinPwm, cfg.MaxPwm = iptr(20), iptr(250)
 			}
+			if i == 2 {
+				// a configured pwmMap: the controller uses the configuration's own map object
+				m := map[int]int{0: 0, 64: 128, 192: 255}
+				cfg.PwmMap = &m
+			}
 			f, _ := fans.NewFan(cfg)
 			fanList = append(fanList, f)
 		}
-		ff, _ := fans.NewFan(configuration.FanConfig{ID: pfx + "f4", Curve: pfx + "pidc", File: &configuration.FileFanConfig{Path: w("filefan", "90"), RpmPath: w("filefan_rpm", "1000")}})
+		fm := map[int]int{0: 0, 100: 100, 255: 255}
+		ff, _ := fans.NewFan(configuration.FanConfig{ID: pfx + "f4", Curve: pfx + "pidc", PwmMap: &fm, File: &configuration.FileFanConfig{Path: w("filefan", "90"), RpmPath: w("filefan_rpm", "1000")}})
 		fanList = append(fanList, ff)
 		for i, f := range fanList {
 			fans.RegisterFan(f)
